@@ -527,6 +527,8 @@ def Node.processObj (recur : Node → Sid → Bytes → Node × Out) (n : Node) 
   | .acknowledge op server =>
     if !s.auth then (n, notAuth) else (n.ackPending op server, .ok, [])
   | .replicateRequest str op =>
+    -- an envelope inside an envelope is refused (bounds the recursion of `process_request`)
+    if Bytes.startsWith (Bytes.trimBoth 10 str) b!"rp " then (n, .error b!"Invalid replication request str", []) else
     let ack : Ev := .push sid (b!"ack " ++ Bytes.ofNat op ++ [32] ++ n.addr ++ b!" \n")
     match recur n sid str with
     | (n, r, evs) => (n, r, ack :: evs)
